@@ -460,7 +460,7 @@ theorem infFactor_scaleLoad (Φ : ℝ → ℝ) {c : ℝ} (hc : c ≠ 0) (SD TS :
     infFactor Φ (c * SD) TS { t with load := c * t.load } = infFactor Φ SD TS t := by
   simp only [infFactor, mul_div_mul_left _ _ hc]
 
-theorem likInfinite_scaleLoad (Φ : ℝ → ℝ) {c SD : ℝ} (hc : 0 < c) (_hSD : SD ≠ 0) (d : List (Test ℝ)) (TS : ℝ) :
+theorem likInfinite_scaleLoad (Φ : ℝ → ℝ) {c SD : ℝ} (hc : 0 < c) (d : List (Test ℝ)) (TS : ℝ) :
     likInfinite Φ (scaleLoad c d) (c * SD) TS = likInfinite Φ d SD TS := by
   have key : (infiniteZone (scaleLoad c d)).map (infFactor Φ (c * SD) TS)
       = (infiniteZone d).map (infFactor Φ SD TS) := by
@@ -518,7 +518,7 @@ theorem likInfinite_perm (Φ : ℝ → ℝ) {d₁ d₂ : List (Test ℝ)} (h : d
 
 theorem likTotal_scaleLoad (Φ : ℝ → ℝ) {c : ℝ} (hc : 0 < c) (d : List (Test ℝ)) (cv : Curve ℝ) (hSD : 0 < cv.SD) :
     likTotal Φ (scaleLoad c d) { cv with SD := c * cv.SD } = likTotal Φ d cv := by
-  simp only [likTotal, likFinite_scaleLoad hc hSD, likInfinite_scaleLoad Φ hc hSD.ne']
+  simp only [likTotal, likFinite_scaleLoad hc hSD, likInfinite_scaleLoad Φ hc]
 
 theorem likTotal_scaleCycles (Φ : ℝ → ℝ) {c : ℝ} (hc : 0 < c) (d : List (Test ℝ)) (cv : Curve ℝ)
     (hSD : 0 < cv.SD) (hND : 0 < cv.ND) (hd : ∀ t ∈ d, 0 < t.load ∧ 0 < t.cycles) :
